@@ -94,6 +94,19 @@ var tricky = []string{":", "[S]", "[N]", "[I]1", "\\", "\\:", ":[S]", "x", "y", 
 
 // keyVal draws key values weighted towards the characters used internally to delimit keys and towards
 // values that are equal across types.
+// families: values that are equal under the documented normalisation but spelled / typed differently; a pool
+// seeded from one family makes buckets that a representation-sensitive key would split
+var families = [][]value.Primary{
+	{value.NewString("1"), value.NewString("1.0"), value.NewString("1e0"), value.NewString(" 1 "), value.NewInteger(1), value.NewFloat(1), value.NewString("+1")},
+	{value.NewString("1.5"), value.NewString("1.50"), value.NewString("15e-1"), value.NewFloat(1.5), value.NewString(" 1.5"), value.NewString("0.15E1")},
+	{value.NewString("0"), value.NewString("-0"), value.NewString("0.0"), value.NewString("-0.0"), value.NewFloat(0), value.NewFloat(math.Copysign(0, -1)), value.NewInteger(0)},
+	{value.NewString("0.5"), value.NewString(".5"), value.NewString("5e-1"), value.NewFloat(0.5), value.NewString("0.50")},
+	{value.NewString("true"), value.NewString("TRUE"), value.NewString("t"), value.NewString(" True ")},
+	{value.NewString("abc"), value.NewString("ABC"), value.NewString(" abc "), value.NewString("aBc")},
+	{value.NewString("2012-02-03"), value.NewString("2012-02-03 00:00:00"), value.NewString("2012/02/03"), value.NewString("2012-02-03T00:00:00Z")},
+	{value.NewString("100"), value.NewString("1e2"), value.NewString("100.0"), value.NewInteger(100), value.NewFloat(100)},
+}
+
 func keyVal(g *hc.Gen, lit bool) value.Primary {
 	switch g.Intn(10) {
 	case 0, 1, 2, 3:
@@ -227,6 +240,17 @@ func run(seed int64, n int, dir string, _ []string) {
 				pool[i] = value.NewNull()
 			}
 		}
+		if g.Intn(2) == 0 {
+			// two to four members of one family of equal-but-differently-spelled values
+			fam := families[g.Intn(len(families))]
+			for k := 2 + g.Intn(3); k > 0; k-- {
+				v := fam[g.Intn(len(fam))]
+				if _, ok := hc.SqlLit(v); ok {
+					pool = append(pool, v)
+				}
+			}
+			o.Count("pool_with_family")
+		}
 		rows := make([][]value.Primary, nrows)
 		toks := make([]string, 0, nrows*ncols)
 		for i := range rows {
@@ -256,8 +280,8 @@ func run(seed int64, n int, dir string, _ []string) {
 
 		// GROUP BY: bucket membership and order (LISTAGG lists the ids of a bucket in row order)
 		_, _ = pr.Exec("DECLARE cntpos AGGREGATE (c) AS BEGIN VAR @n := 0; VAR @x; WHILE @x IN c DO IF @x > 0 THEN @n := @n + 1; END IF; END WHILE; RETURN @n; END;")
-		const aggs = "COUNT(*) AS n, COUNT(v) AS nv, SUM(v) AS s, MIN(v) AS mn, MAX(v) AS mx, AVG(v) AS av, MEDIAN(v) AS md, COUNT(DISTINCT v) AS cd, SUM(DISTINCT v) AS sd, LISTAGG(v, ',') AS lv, LISTAGG(DISTINCT v, ';') AS ld, JSON_AGG(v) AS ja, STDEV(v) AS sv, VAR(v) AS vr, cntpos(v) AS up"
-		const naggs = 15
+		const aggs = "COUNT(*) AS n, COUNT(v) AS nv, SUM(v) AS s, MIN(v) AS mn, MAX(v) AS mx, AVG(v) AS av, MEDIAN(v) AS md, COUNT(DISTINCT v) AS cd, SUM(DISTINCT v) AS sd, LISTAGG(v, ',') AS lv, LISTAGG(DISTINCT v, ';') AS ld, JSON_AGG(v) AS ja, STDEV(v) AS sv, VAR(v) AS vr, cntpos(v) AS up, LISTAGG(v, ',') WITHIN GROUP (ORDER BY id * -1) AS lo, JSON_AGG(id) WITHIN GROUP (ORDER BY v * -1, id) AS jo"
+		const naggs = 17
 		v, err := pr.Query("SELECT LISTAGG(id, ',') AS ids, " + aggs + " FROM t GROUP BY " + keyList)
 		if err != nil {
 			o.Law("group_sql_error", err.Error())
@@ -320,6 +344,28 @@ func run(seed int64, n int, dir string, _ []string) {
 					}
 				}
 			}
+		}
+
+		// the same aggregates over a derived table (no hidden row id in front, the aggregated column first)
+		dv, err1 := pr.Query("SELECT LISTAGG(id, ',') AS ids, " + aggs + " FROM (SELECT v, id, " + keyList + ", w FROM t) s GROUP BY " + keyList)
+		tv, err2 := pr.Query("SELECT LISTAGG(id, ',') AS ids, " + aggs + " FROM t GROUP BY " + keyList)
+		if err1 == nil && err2 == nil {
+			same := dv.RecordLen() == tv.RecordLen()
+			for i := 0; same && i < dv.RecordLen(); i++ {
+				for c := 0; c <= naggs; c++ {
+					if hc.EncVal(hc.ViewCell(dv, i, c)) != hc.EncVal(hc.ViewCell(tv, i, c)) {
+						o.Law("aggregate_over_derived_table", map[string]interface{}{"group": i, "column": c, "direct": hc.EncVal(hc.ViewCell(tv, i, c)), "derived": hc.EncVal(hc.ViewCell(dv, i, c))})
+						same = false
+						break
+					}
+				}
+			}
+			if dv.RecordLen() != tv.RecordLen() {
+				o.Law("aggregate_over_derived_table", map[string]interface{}{"groups_direct": tv.RecordLen(), "groups_derived": dv.RecordLen()})
+			}
+			o.Count("derived_table_checks")
+		} else if (err1 == nil) != (err2 == nil) {
+			o.Law("aggregate_over_derived_table", map[string]interface{}{"direct_error": fmt.Sprint(err2), "derived_error": fmt.Sprint(err1)})
 		}
 
 		// DISTINCT
